@@ -334,13 +334,206 @@ class UpdatePlanContract(FunctionContract):
                 + [("plan-invariant/" + n, f) for n, f in PI(P1, S1, X)])
 
 
+# ==========================================================================
+class CallContract(FunctionContract):
+    """ExecutionController.__call__: the dispatch loop.  `target` is an arbitrary object whose
+    evaluate_condition / exec_* may return anything the protocol allows, or raise."""
+    prop = PROP
+    relpath = REL
+    qualname = "ExecutionController.__call__"
+    exc_hierarchy = {"TargetException": ["Exception"]}
+    raises = {"TargetException": lambda st: []}     # a step cut short by a failure / switch / error
+    call_modifies = {"self.update_plan": ["self.plan", "self.plan_id_set"]}
+
+    def params(self, ctx):
+        ctx.env["self"] = new_self(ctx)
+        ctx.env["phase"] = PHASE.fresh("phase")
+        ctx.env["target"] = VObj(TObj("Target", {}), {})
+
+    def ghosts(self, ctx):
+        ctx.ghost["vpos"] = z3.Const("vpos0", z3.ArraySort(Id, IntSort()))
+        ctx.ghost["vc"] = z3.IntVal(0)
+        ctx.ghost["disp"] = z3.K(Id, z3.BoolVal(False))      # ids whose exec method was called
+        ctx.ghost["cond"] = z3.K(Id, z3.BoolVal(False))      # ids whose guard was evaluated
+
+    attr_exprs = {"phase.id_to_stmt": lambda ctx, it: ctx.alloc(VDict(ID2STMT, DOM, IDS))}
+
+    def requires(self, st):
+        return graph_axioms() + PI(sf(st, "plan"), sf(st, "plan_id_set").t, sf(st, "executed_ids").t)
+
+    # ---- target models -----------------------------------------------------------
+    def _visit_obligations(self, ctx, it, stmt, what, ghost):
+        selfo = ctx.deref(ctx.env["self"])
+        X = ctx.deref(selfo.fields["executed_ids"]).t
+        d = z3.Const("d", Id)
+        x = sid(stmt)
+        ctx.oblige(it.oname("%s/statement-counts-as-visited" % what), Select(X, x))
+        ctx.oblige(it.oname("%s/all-dependencies-visited-before" % what),
+                   ForAll([d], Implies(dep(x, d), And(Select(X, d), d != x))))
+        ctx.oblige(it.oname("%s/at-most-once-per-step" % what), Not(Select(ctx.ghost[ghost], x)))
+        ctx.ghost[ghost] = Store(ctx.ghost[ghost], x, True)
+
+    def m_eval_cond(self, ctx, it, args, kw):
+        stmt = ctx.deref(args[0]).t
+        self._visit_obligations(ctx, it, stmt, "evaluate_condition", "cond")
+        if ctx.choose(2, "cond-raises") == 0:
+            ctx.raise_("TargetException")
+        return VBool(z3.Bool(fresh_name("guard")))
+
+    def m_exec(self, ctx, it, args, kw):
+        stmt = ctx.deref(args[0]).t
+        self._visit_obligations(ctx, it, stmt, "exec", "disp")
+        k = ctx.choose(4, "exec-outcome")
+        if k == 0:
+            ctx.raise_("TargetException")
+        if k == 1:
+            return NONE
+        event = NONE if ctx.choose(2, "event") == 0 else VPy("<event>")
+        if k == 2:
+            return VTuple([event, NONE])
+        L = TList(ID).fresh("new_deps")
+        j = z3.Int("j")
+        ctx.assume(L.n >= 0)
+        # the protocol: requested ids are statements of the phase
+        ctx.assume(ForAll([j], Implies(And(0 <= j, j < L.n), Select(DOM, Select(L.a, j)))))
+        return VTuple([event, ctx.alloc(L)])
+
+    def m_update_plan(self, ctx, it, args, kw):
+        L = ctx.deref(args[1])
+        selfo = ctx.deref(ctx.env["self"])
+        pref, sref = selfo.fields["plan"], selfo.fields["plan_id_set"]
+        P0, S0 = ctx.deref(pref), ctx.deref(sref).t
+        X = ctx.deref(selfo.fields["executed_ids"]).t
+        j = z3.Int("j")
+        x, y = z3.Consts("x y", Id)
+        pre = PI(P0, S0, X) + [("requested-are-statements",
+                                ForAll([j], Implies(And(0 <= j, j < L.n), Select(DOM, Select(L.a, j)))))]
+
+        def post():
+            P1, S1 = ctx.deref(pref), ctx.deref(sref).t
+            return ([ForAll([j], Implies(And(0 <= j, j < L.n),
+                                         Or(Select(X, Select(L.a, j)), P1.has(Select(L.a, j))))),
+                     ForAll([x], Implies(P0.has(x), P1.has(x)))]
+                    + [f for _, f in PI(P1, S1, X)])
+        return call_by_contract(ctx, it, "update_plan", pre, [pref, sref], post)
+
+    calls = property(lambda self: {"target.evaluate_condition": self.m_eval_cond,
+                                   "getattr(target, stmt.exec_method)": self.m_exec,
+                                   "self.update_plan": self.m_update_plan})
+
+    def on_yield(self, ctx, it, v):
+        pass
+
+    def order(self, s):
+        x, d = z3.Consts("x d", Id)
+        X, X0 = sf(s, "executed_ids").t, sf(s.old, "executed_ids").t
+        vpos, vc = s.g("vpos"), s.g("vc")
+        new = lambda x_: And(Select(X, x_), Not(Select(X0, x_)))  # noqa
+        return [
+            ("executed-only-grows", ForAll([x], Implies(Select(X0, x), Select(X, x)))),
+            ("visit-positions", And(vc >= 0, ForAll([x], Implies(new(x), And(0 <= Select(vpos, x), Select(vpos, x) < vc))))),
+            ("visited-after-all-dependencies",
+             ForAll([x, d], Implies(And(new(x), dep(x, d)),
+                                    And(Select(X, d), Implies(new(d), Select(vpos, d) < Select(vpos, x)))))),
+            ("guard-evaluated-and-dispatched-only-for-visited",
+             ForAll([x], And(Implies(Select(s.g("disp"), x), new(x)), Implies(Select(s.g("cond"), x), new(x))))),
+            ("initially-planned-are-executed-or-still-planned",
+             ForAll([x], Implies(sf(s.old, "plan").has(x), Or(Select(X, x), sf(s, "plan").has(x))))),
+        ]
+
+    def inv(self, s):
+        return PI(sf(s, "plan"), sf(s, "plan_id_set").t, sf(s, "executed_ids").t) + self.order(s)
+
+    loops = property(lambda self: {0: dict(shape="while self.plan", inv=self.inv,
+                                           havoc_ghosts=["vpos", "vc", "disp", "cond"])})
+
+    @property
+    def ghost_updates(self):
+        def on_add(ctx, it):
+            x = ctx.deref(ctx.env["stmt_id"]).t
+            ctx.ghost["vpos"] = Store(ctx.ghost["vpos"], x, ctx.ghost["vc"])
+            ctx.ghost["vc"] = ctx.ghost["vc"] + 1
+
+        return {"self.executed_ids.add(stmt_id)": on_add}
+
+    def exec_pre_add(self, ctx, it):
+        pass
+
+    def ensures(self, st):
+        x, d = z3.Consts("x d", Id)
+        X, X0 = sf(st, "executed_ids").t, sf(st.old, "executed_ids").t
+        return ([("everything-planned-at-entry-was-visited",
+                  ForAll([x], Implies(sf(st.old, "plan").has(x), Select(X, x)))),
+                 ("plan-empty", Not(sf(st, "plan").truth(None))),
+                 ("visited-set-closed-under-dependencies",
+                  ForAll([x, d], Implies(And(Select(X, x), Not(Select(X0, x)), dep(x, d)), Select(X, d))))]
+                + self.order(st))
+
+
+def sink_closure_lemma():
+    """A-SINK: a dependency-closed set C of statements that contains every sink contains every
+    statement.  Step of the well-founded induction on (bound - num): proved here; the induction
+    rule itself (finite phase => num bounded above) is trusted (Rule IND)."""
+    C = z3.Const("C", z3.ArraySort(Id, BoolSort()))
+    SINK = z3.Const("SINK", z3.ArraySort(Id, BoolSort()))
+    parent = z3.Function("parent", Id, Id)
+    x, y, d = z3.Consts("x y d", Id)
+    hyps = [f for _, f in graph_axioms()] + [
+        # ExecutionPhase.depends_on (SinkContract): an id that is not a sink is a dependency of some statement
+        ForAll([x], Implies(And(Select(DOM, x), Not(Select(SINK, x))),
+                            And(Select(DOM, parent(x)), dep(parent(x), x)))),
+        ForAll([x], Implies(Select(SINK, x), Select(C, x))),
+        ForAll([x, d], Implies(And(Select(C, x), Select(DOM, x), dep(x, d)), Select(C, d))),
+    ]
+    x0 = z3.Const("x0", Id)
+    ih = ForAll([y], Implies(And(Select(DOM, y), num(y) > num(x0)), Select(C, y)))
+    return [], [("induction-step", hyps + [ih, Select(DOM, x0)], Select(C, x0))]
+
+
+def step_composition_lemma():
+    """reset ; update_plan(phase, phase.depends_on) ; __call__  (as in run_single_step):
+    from the three postconditions, the visited set contains every sink and is closed under
+    dependencies -- the hypotheses of A-SINK with C = executed_ids."""
+    X1 = z3.Const("X_after", z3.ArraySort(Id, BoolSort()))
+    PM = z3.Const("P_after_update", z3.ArraySort(Id, BoolSort()))
+    SINK = z3.Const("SINK", z3.ArraySort(Id, BoolSort()))
+    x, d = z3.Consts("x d", Id)
+    hyps = [
+        # reset: executed empty (X0 = {}), update_plan post: every requested id executed or planned
+        ForAll([x], Implies(Select(SINK, x), Select(PM, x))),
+        # __call__ post: everything planned at entry was visited; closed under dependencies (X0 empty)
+        ForAll([x], Implies(Select(PM, x), Select(X1, x))),
+        ForAll([x, d], Implies(And(Select(X1, x), dep(x, d)), Select(X1, d))),
+    ]
+    return [], [("sinks-visited", hyps, ForAll([x], Implies(Select(SINK, x), Select(X1, x)))),
+                ("closed", hyps, ForAll([x, d], Implies(And(Select(X1, x), Select(DOM, x), dep(x, d)), Select(X1, d))))]
+
+
 def units():
     return [FunctionUnit(SinkContract()), FunctionUnit(ResetContract()),
             FunctionUnit(AddWithDepsContract()),
-            FunctionUnit(UpdatePlanContract("set")), FunctionUnit(UpdatePlanContract("list"))]
+            FunctionUnit(UpdatePlanContract("set")), FunctionUnit(UpdatePlanContract("list")),
+            FunctionUnit(CallContract()),
+            LemmaUnit("lemma:A-SINK", sink_closure_lemma),
+            LemmaUnit("lemma:step-composition", step_composition_lemma)]
 
 
 LEVEL = "proof"
-TRUSTED_BASE = []
-ASSUMPTIONS = []
-EXPLANATION = ""
+BOUNDED = {"quick": {"timeout_s": 60}, "thorough": {"timeout_s": 600}}
+TRUSTED_BASE = [
+    "Rule IND (well-founded induction on an integer measure bounded above on a finite phase) concludes A-SINK from its proved step",
+    "callee models (update_plan inside __call__, add_with_deps inside update_plan and itself) are the callees' separately proved contracts",
+    "@property/@memoize_method on ExecutionPhase.depends_on / id_to_stmt return the value of the first call (phase records are immutable)",
+]
+ASSUMPTIONS = [
+    "precondition = postcondition of verify_code (C10): dependencies closed within the phase, a height function num >= 0 exists, ids unique",
+    "phase.id_to_stmt maps each id to the statement with that id (dict comprehension over unique ids)",
+    "target.evaluate_condition / exec_* are arbitrary callees: may return any value the protocol allows, or raise (step cut short); requested new_deps name statements of the phase",
+    "duplicate-free lists are encoded by their position view; every append carries the proof obligation that the element is new",
+    "generator semantics: the body between two yields is executed atomically with respect to the controller state (no interleaving with the consumer is modelled)",
+]
+EXPLANATION = ("ExecutionPhase.depends_on is proved to be the sink set; reset empties the three containers; add_with_deps (recursive, "
+               "decreases the height) keeps the early plan duplicate-free with dependencies first; update_plan puts the requested ids and "
+               "their unvisited dependencies before everything else planned, keeps the remaining order and re-establishes the plan "
+               "invariant; the dispatch loop of __call__ visits each planned id once, marks it visited before evaluating its guard, and "
+               "never dispatches a statement before all its dependencies were visited; with A-SINK the visited set is the whole phase.")
